@@ -119,7 +119,18 @@ def run_harness(binp, pid, workdir, seed, n, tier, replay=None, timeout=1800, ta
 
 def coq_eval(cfg, cases, workdir, tag="gen"):
     """Evaluate verdicts of all cases with vm_compute inside coqc. Returns {index: code}."""
-    shards = [cases[i:i + SHARD] for i in range(0, len(cases), SHARD)]
+    # shards bounded by case count and by term size (coqc parses ~1 MB/s)
+    shards, offsets, cur, size = [], [], [], 0
+    for i, c in enumerate(cases):
+        if cur and (len(cur) >= SHARD or size + len(c["coq"]) > 1200000):
+            shards.append(cur)
+            cur, size = [], 0
+        if not cur:
+            offsets.append(i)
+        cur.append(c)
+        size += len(c["coq"])
+    if cur:
+        shards.append(cur)
     results = {}
     errors = []
 
@@ -163,7 +174,7 @@ def coq_eval(cfg, cases, workdir, tag="gen"):
             pass
         return k, res, None
 
-    with ThreadPoolExecutor(max_workers=8) as ex:
+    with ThreadPoolExecutor(max_workers=12) as ex:
         for k, res, err in ex.map(one, range(len(shards))):
             if err:
                 errors.append(err)
@@ -172,7 +183,7 @@ def coq_eval(cfg, cases, workdir, tag="gen"):
                 if local == "scope":
                     results["scope"] = results.get("scope", 0) + code
                 else:
-                    results[k * SHARD + local] = code
+                    results[offsets[k] + local] = code
     return results, errors
 
 
